@@ -277,7 +277,18 @@ def main():
         import re
         cases = [c for c in cases if re.search(only, c.tag)]
     N = 4 if tier == 'quick' else 5
-    return runner.run_property('C14', cases, tier=tier, chunk=1,
+    # kernel part (gosym engine): compiler.encodeString on all byte strings up to the bound
+    sys.path.insert(0, os.path.dirname(os.path.abspath(__file__)))
+    import check_kernel
+    krc, kev = check_kernel.run(tier) if not (only and not only.startswith('VHarness')) else (0, None)
+
+    def post(ev, rep):
+        if kev:
+            ev['coverage']['kernel_checks'] = kev['coverage']
+            ev['violations'] += kev['violations']
+    if only and only.startswith('VHarness'):
+        return krc
+    return krc | runner.run_property('C14', cases, tier=tier, chunk=1, post=post,
                                title='UTF-8 / byte-string semantics of the Go specification vs symbolic execution of the emitted JavaScript and prelude string helpers',
                                bounds={'string length': '0..%d bytes, every byte fully symbolic (0..255); compare/concat/map operands 0..%d bytes each' % (N, 2 if tier == 'quick' else 3),
                                        'runes': 'string(rune) for every int32 value', 'outside': 'strings longer than the bound; the 10000-byte chunking in $bytesToString'},
